@@ -2394,6 +2394,8 @@ func (d *Data) LoadMutable(root dvid.VersionID, storedVersion, expectedVersion u
 const veryLargeLabel = 10000000000 // 10 billion
 
 func (d *Data) loadLabelIDs(wg *sync.WaitGroup, ch chan *storage.KeyValue) {
+	// signs off however it returns: its starter waits on the group
+	defer wg.Done()
 	ctx := storage.NewDataContext(d, 0)
 	var repoMax uint64
 	d.MaxLabel = make(map[dvid.VersionID]uint64)
@@ -2456,8 +2458,6 @@ func (d *Data) loadLabelIDs(wg *sync.WaitGroup, ch chan *storage.KeyValue) {
 	} else {
 		d.NextLabel = binary.LittleEndian.Uint64(data)
 	}
-
-	wg.Done()
 }
 
 // --- imageblk.IntData interface -------------
